@@ -18,10 +18,11 @@ EXPLANATION = (
     "same iterable, levels are visited in the given order, and the same (discarded, kept) pairs are "
     "recorded in values_orders); R-unknown-exhaustive (unknown_handling is asserted to be raise|drop, "
     "'raise' asserts naming the feature, 'drop' groups the unknown value into str_nan); "
-    "R-known-values-kept (every value of the hierarchy is appended to each feature's order)."
+    "R-known-values-kept (every value of the hierarchy is appended to each feature's order); "
+    "R-select-nonempty (numpy.select is only called when a value has to be merged at that level)."
 )
 NOT_DECIDED = "which values end up merged on given data; pandas value_counts/select semantics"
-FLOORS = {"R-append-absent": 4, "R-thresholds": 3, "R-merge-target": 5, "R-unknown-exhaustive": 3, "R-known-values-kept": 2}
+FLOORS = {"R-append-absent": 4, "R-thresholds": 3, "R-merge-target": 5, "R-unknown-exhaustive": 3, "R-known-values-kept": 2, "R-select-nonempty": 1}
 
 CLS = "ChainedDiscretizer"
 
@@ -200,10 +201,14 @@ def check(ctx):
     rule_merge_target(ctx)
     rule_unknown(ctx)
     rule_known_values(ctx)
+    from . import quant
+
+    quant.check_select_nonempty(ctx, "R-select-nonempty", select_fn=lambda fi: fi.cls is not None and fi.cls.name == CLS)
 
 
 MUTANTS = [
     M("D8-reverted: str_nan appended for every unknown value", [(F_QUAL, "                        if self.str_nan not in order:\n                            order.append(self.str_nan)\n", "                        order.append(self.str_nan)\n")], "R-append-absent", "_prepare_data", quick=True),
+    M("D23-reverted: select on an empty condition list", [(F_QUAL, "                if len(values_to_group) > 0:\n                    x_copy[feature] = select(df_to_input, groups_value, default=x_copy[feature])\n", "                x_copy[feature] = select(df_to_input, groups_value, default=x_copy[feature])\n")], "R-select-nonempty", quick=True),
     M("strict frequency threshold", [(F_QUAL, "to_keep = list(values[frequencies >= self.min_freq]) + [", "to_keep = list(values[frequencies > self.min_freq]) + [")], "R-thresholds", "kept iff", quick=True),
     M("missing values no longer kept apart", [(F_QUAL, "to_keep = list(values[frequencies >= self.min_freq]) + [\n                    self.str_nan,\n                ]", "to_keep = list(values[frequencies >= self.min_freq])")], "R-thresholds", "sentinel"),
     M("absolute counts compared with min_freq", [(F_QUAL, "            frequencies = x_copy[feature].value_counts(normalize=True)\n\n            # iterating over each specified orders", "            frequencies = x_copy[feature].value_counts()\n\n            # iterating over each specified orders")], "R-thresholds", "shares"),
